@@ -669,7 +669,11 @@ class Fragments(Stream):
         return repr((case['ref'], case['qry'], case['peaks'], case['peaks2'], case['rev']))
 
 
-STREAMS = [Files(), Rows(), Candidates(), Writer(), Fragments()]
+from ..program_files import ProgramFilesStream
+
+# last: whole real runs against Program.program_files — every field of every record of every file, byte for byte, from the CMAP rows and the
+# command line alone (harness/program_files.py; the theorems about it: C02_program_records)
+STREAMS = [Files(), Rows(), Candidates(), Writer(), Fragments(), ProgramFilesStream()]
 _ONLY = [x for x in os.environ.get('C02_STREAMS', '').split(',') if x]      # debugging aid: run a subset of the streams
 if _ONLY:
     STREAMS = [s for s in STREAMS if s.name in _ONLY]
